@@ -90,6 +90,9 @@ def strategy(tier):
         # a SHORT chain (k offers through fresh classes) that enters through an extra BASE class of the adaptee's class,
         # competing with the (usually longer) constructed path whose offers are registered for nearer classes
         "via_base": st.sampled_from([0, 0, 0, 1, 2, 2]),
+        # trait modes: after the first assignment a new exact-type offer is registered and the SAME object is assigned
+        # again; the trait must then hold what adapt() gives now
+        "reassign": st.booleans(),
     })
 
 
@@ -221,6 +224,7 @@ def run(case, ctx):
     # ---- the implementation
     mode = case["mode"]
     sentinel = object()
+    reassign_problem = None
     old_mgr = get_global_adaptation_manager()
     raised = None
     res = sentinel
@@ -247,12 +251,24 @@ def run(case, ctx):
                 other = h.x_ if mode == "supports" else (h.x if mode == "adaptsto" else None)
             except TraitError as e:
                 raised = e
+            if case.get("reassign") and not issubclass(S, T):
+                new_oid = len(offs)
+                mgr.register_factory(lambda a: Wrap(a, new_oid), S, T)
+                direct = chain_of(mgr.adapt(adaptee, T))[0]
+                h.x = adaptee
+                again = chain_of(h.x if mode != "adaptsto" else h.x_)[0]
+                ctx.label("reassigned-after-new-offer")
+                if again != direct:
+                    reassign_problem = "%s trait holds the chain %r after the same object was assigned again, adapt() now gives %r" \
+                        % (mode, again, direct)
     except Exception as e:
         ctx.fail("adapt/exception-class", "%s raised %r" % (desc, e))
     finally:
         set_global_adaptation_manager(old_mgr)
     found = raised is None and res is not sentinel
     ctx.label("mode:" + mode)
+    if reassign_problem:
+        ctx.fail("traits/stale-after-reassignment", "%s: %s" % (reassign_problem, desc))
     if provides:
         ctx.label("already-provides")
         if not found or res is not adaptee:
